@@ -418,7 +418,8 @@ func (h *Session) notify(frame Frame) {
 	if frame.onlineTransition() {
 		if frame.Host.Addr.IP.Is4() {
 			for _, v := range frame.Host.MACEntry.HostList {
-				if !v.Online && v.dirty {
+				// the notifying host itself is announced below, not here
+				if v != frame.Host && !v.Online && v.dirty {
 					offline = append(offline, v)
 				}
 			}
